@@ -33,3 +33,36 @@ def shrink_candidates(inp):
         q = list(parts)
         q[12] = cand.hex() or "-"
         yield " ".join(q)
+
+
+def post(run):
+    """Input / outcome distribution of the SMTP streams, for the evidence."""
+    import collections
+    import os
+    p = os.path.join(run.dir, "main.cases.txt")
+    if not os.path.exists(p):
+        return
+    codes, naming, stores, sizes, stored, kinds = (collections.Counter() for _ in range(6))
+    accepted_tx = 0
+    for line in open(p):
+        a, _, b = line.rstrip("\n").partition(" => ")
+        ins, outs = a.split(" "), b.split(" ")
+        kinds[ins[0]] += 1
+        if len(ins) < 13 or len(outs) < 6:
+            continue
+        naming[ins[1]] += 1
+        stores[ins[11]] += 1
+        n = 0 if ins[12] == "-" else len(ins[12]) // 2
+        sizes["<100" if n < 100 else "<1k" if n < 1000 else "<10k" if n < 10000 else "<100k" if n < 100000 else ">=100k"] += 1
+        for sess in outs[0].split("|"):
+            toks = sess.split(",")
+            for i, t in enumerate(toks):
+                codes[t] += 1
+                if t == "250" and i > 0 and toks[i - 1] == "354":
+                    accepted_tx += 1
+        stored[str(outs[4].count(":[") if outs[4] != "-" else 0)] += 1
+    run.cov.setdefault("extra", {})["distribution"] = {
+        "kinds": dict(kinds), "naming_mode": dict(naming), "store": dict(stores), "stream_bytes": dict(sizes),
+        "reply_codes": dict(codes.most_common(30)), "transactions_acknowledged_250_after_data": accepted_tx,
+        "messages_in_store_after_case": dict(sorted(stored.items(), key=lambda kv: int(kv[0]))[:12]),
+    }
